@@ -18,7 +18,6 @@ static unsigned long g_ssw_cap, g_ssw_p0, g_ssw_n0;
 static const unsigned char *g_ssw_src;
 static unsigned long g_k, g_j;    /* arbitrary (universally quantified) positions: in the source, in the block */
 static unsigned char g_old_j;     /* content of block[g_j] before the call */
-static unsigned long g_lo;        /* offset of the destination inside its block */
 /* container visitors */
 static unsigned long g_vis_calls;  /* accept() calls so far == number of slots walked */
 static unsigned long g_vis_len;    /* length of the list */
@@ -541,8 +540,7 @@ void TextFormatter_LogWriter__writeChar(struct TextFormatter_LogWriter *self, ch
   (void)self;
   CHECK(g_ws_open && !g_ws_close, "characters are written between the quotes");
 #ifdef CANARY_STR
-  CHECK(c == g_ws_src[g_wc_calls] || g_wc_calls == 3, "the k-th writeChar receives the k-th byte of the string");
-  CHECK(c != 'x', "canary");
+  CHECK(c == (char)(g_ws_src[g_wc_calls] + (g_wc_calls == 3)), "the k-th writeChar receives the k-th byte of the string");
 #else
   CHECK(c == g_ws_src[g_wc_calls], "the k-th writeChar receives the k-th byte of the string");
 #endif
@@ -587,21 +585,21 @@ void h_string_z(void) {
 
 /* ---- StaticStringWriter -------------------------------------------------------------------------------------------- */
 #define SSW_MAX 0x7fffffffUL
-/* destination = block[lo, lo+cap) inside a larger block (lo, hi in [0,8]) so that a write just outside the destination
- * is not merely an out-of-object access but a change of a neighbouring byte */
+/* destination = a heap block of exactly cap bytes: any access outside it is a cbmc bounds failure, any write to another
+ * object violates the loop's assigns clause; bytes of the block outside [old p, old p + count) are compared with their old value */
 static void ssw_setup(struct StaticStringWriter *w, char **block, unsigned long *blocksize) {
-  unsigned long cap = in_size(), lo = in_u8(), hi = in_u8(), p0 = in_size();
-  __CPROVER_assume(cap <= SSW_MAX && lo <= 8 && hi <= 8 && p0 <= cap);
-  *blocksize = lo + cap + hi;
-  *block = malloc(*blocksize);
+  unsigned long cap = in_size(), p0 = in_size();
+  __CPROVER_assume(cap <= SSW_MAX && p0 <= cap);
+  *blocksize = cap;
+  *block = malloc(cap);
   __CPROVER_assume(*block != 0);
-  StaticStringWriter__ctor__char_p_ulong(w, *block + lo, cap);
-  CHECK(w->p == *block + lo && w->end == *block + lo + cap, "StaticStringWriter(buf,size): p == buf, end == buf + size");
-  w->p = *block + lo + p0; /* any reachable state: p0 bytes already written */
-  g_ssw_buf = *block; g_ssw_cap = cap; g_ssw_p0 = p0; g_lo = lo;
+  StaticStringWriter__ctor__char_p_ulong(w, *block, cap);
+  CHECK(w->p == *block && w->end == *block + cap, "StaticStringWriter(buf,size): p == buf, end == buf + size");
+  w->p = *block + p0; /* any reachable state: p0 bytes already written */
+  g_ssw_buf = *block; g_ssw_cap = cap; g_ssw_p0 = p0;
   g_j = in_size();
-  __CPROVER_assume(g_j < *blocksize);
-  g_old_j = (unsigned char)(*block)[g_j];
+  __CPROVER_assume(g_j < cap || cap == 0);
+  g_old_j = cap ? (unsigned char)(*block)[g_j] : 0;
 }
 void h_ssw_block(void) {
   struct StaticStringWriter w;
@@ -617,13 +615,13 @@ void h_ssw_block(void) {
   unsigned long r = StaticStringWriter__write__uchar_p_ulong(&w, src, n);
   COVER(want == 0 && n > 0); COVER(want == n && n > 70000); COVER(want < n && want > 0); COVER(n == 0);
 #ifdef CANARY_SSW
-  CHECK(r == want || (n == g_ssw_cap - g_ssw_p0 + 1), "writer: returns min(n, room)");
+  CHECK(r == want + (n == want + 1), "writer: returns min(n, room)");
 #else
   CHECK(r == want, "writer: returns min(n, room)");
 #endif
-  CHECK(w.p == block + g_lo + g_ssw_p0 + want && w.end == block + g_lo + g_ssw_cap, "writer: p advanced by the count, p <= end, end unchanged");
-  if (g_k < want) CHECK((unsigned char)block[g_lo + g_ssw_p0 + g_k] == src[g_k], "writer: stored bytes are the first min(n, room) bytes of s, at [old p, ...)");
-  if (g_j < g_lo + g_ssw_p0 || g_j >= g_lo + g_ssw_p0 + want) CHECK((unsigned char)block[g_j] == g_old_j, "writer: no byte outside [old p, old p + count) is written");
+  CHECK(w.p == block + g_ssw_p0 + want && w.end == block + g_ssw_cap, "writer: p advanced by the count, p <= end, end unchanged");
+  if (g_k < want) CHECK((unsigned char)block[g_ssw_p0 + g_k] == src[g_k], "writer: stored bytes are the first min(n, room) bytes of s, at [old p, ...)");
+  if (g_ssw_cap && (g_j < g_ssw_p0 || g_j >= g_ssw_p0 + want)) CHECK((unsigned char)block[g_j] == g_old_j, "writer: no byte outside [old p, old p + count) is written");
 }
 void h_ssw_char(void) {
   struct StaticStringWriter w;
@@ -634,13 +632,13 @@ void h_ssw_char(void) {
   unsigned long r = StaticStringWriter__write__uchar(&w, c);
   COVER(want == 0); COVER(want == 1 && g_ssw_p0 + 1 == g_ssw_cap); COVER(g_ssw_cap == 0);
 #ifdef CANARY_SSW
-  CHECK(r == want || g_ssw_p0 == g_ssw_cap, "writer: returns 1 iff there is room");
+  CHECK(r == (g_ssw_p0 + 1 == g_ssw_cap ? 0 : want), "writer: returns 1 iff there is room");
 #else
   CHECK(r == want, "writer: returns 1 iff there is room");
 #endif
-  CHECK(w.p == block + g_lo + g_ssw_p0 + want && w.end == block + g_lo + g_ssw_cap, "writer: p advanced by the count, p <= end, end unchanged");
-  if (want) CHECK((unsigned char)block[g_lo + g_ssw_p0] == c, "writer: the byte is stored at old p");
-  if (g_j != g_lo + g_ssw_p0 || !want) CHECK((unsigned char)block[g_j] == g_old_j, "writer: no other byte is written");
+  CHECK(w.p == block + g_ssw_p0 + want && w.end == block + g_ssw_cap, "writer: p advanced by the count, p <= end, end unchanged");
+  if (want) CHECK((unsigned char)block[g_ssw_p0] == c, "writer: the byte is stored at old p");
+  if (g_ssw_cap && (g_j != g_ssw_p0 || !want)) CHECK((unsigned char)block[g_j] == g_old_j, "writer: no other byte is written");
 }
 
 /* ---- CountingDecorator / DummyWriter ----------------------------------------------------------------------------------- */
